@@ -335,6 +335,8 @@ func TestC09(t *testing.T) {
 	c09MetrixScenarios(t, r)
 	// messages attested after the record they refer to was deleted by an ordinary transaction
 	c09StaleRecordScenarios(t, r)
+	// references a relayer supplies (valset id, message id, queue name) that name nothing when the end blocker looks them up
+	c09DanglingReferenceScenarios(t, r)
 }
 
 func firstLines(s string, n int) string {
